@@ -5,12 +5,6 @@ package stackage
 // Contracts for the deductive verifier in /verif (gvc). Comment-only file:
 // it declares nothing, so the package is identical with or without the tag.
 
-//@ func (*cfgFlag).toggle
-//@ tags C18
-//@ requires r != nil && onebit16(x)
-//@ ensures[C18:toggle] Cell_cfgFlag[r] == old(Cell_cfgFlag[r]) ^ x
-//@ modifies Cell_cfgFlag[r]
-
 //@ func (stack).index
 //@ tags C01
 //@ safety C08
